@@ -6,4 +6,6 @@ EmitB == /\ ImageTerminal => PrintT("B " \o ToJson([kind |-> "layout", areas |->
                                                       file |-> file]))
          /\ SignTerminal  => PrintT("B " \o ToJson([kind |-> "session", plan |-> plan,
                                                       contents |-> Contents]))
+         /\ AuthTerminal  => PrintT("B " \o ToJson([kind |-> "auth", pre |-> apre, plan |-> aplan,
+                                                      contents |-> Contents]))
 =============================================================================
